@@ -741,6 +741,23 @@ func (ex *Exec) evQuant(x *SQuant, env *Env) Val {
 		inner = And(rng, body.T).S
 	}
 	if !x.Forall {
+		// the same re-indexing (see below) for the first candidate trigger: a
+		// negated exists in a goal is a forall and needs a matchable pattern
+		for _, p := range findPatterns(body.T.S, sym) {
+			parts := splitTop(p[1 : len(p)-1])
+			idx := parts[2]
+			if idx == sym || env.inQuant {
+				break
+			}
+			off := strings.TrimSuffix(strings.TrimPrefix(idx, "(+ "), " "+sym+")")
+			env.st.nfresh++
+			k := fmt.Sprintf("k%d_%s", env.st.nfresh, mangle(x.Var))
+			body2 := strings.ReplaceAll(inner, idx, k)
+			body2 = strings.ReplaceAll(body2, sym, "(- "+k+" "+off+")")
+			trig := strings.ReplaceAll(p, idx, k)
+			// (or-ed with the plain form: equivalent, and leaves the solver its own instantiation heuristics)
+			return TV(mkTerm(fmt.Sprintf("(or (exists ((%s Int)) %s) (exists ((%s Int)) (! %s :pattern (%s))))", sym, inner, k, body2, trig), SortBool), types.Typ[types.Bool])
+		}
 		return TV(mkTerm(fmt.Sprintf("(%s ((%s Int)) %s)", q, sym, inner), SortBool), types.Typ[types.Bool])
 	}
 	// Triggers: solvers normalise arithmetic, so a pattern (select A (+ off j))
